@@ -75,7 +75,7 @@ type confirmedViolation struct {
 	count   int
 }
 
-func violKey(v Violation) string { return v.entry + "|" + v.kind + "|" + v.msg }
+func violKey(v Violation) string { return v.entry + "|" + v.kind + "|" + v.msg + "|" + v.detail }
 
 func readJSON(path string, v interface{}) error {
 	b, err := os.ReadFile(path)
@@ -313,7 +313,7 @@ func checkMain(args []string) int {
 					}
 					found := false
 					for _, pv := range pr.viols {
-						if pv.kind == v.kind && pv.msg == v.msg {
+						if pv.kind == v.kind && pv.msg == v.msg && pv.detail == v.detail {
 							found = true
 						}
 					}
@@ -377,7 +377,7 @@ func checkMain(args []string) int {
 				continue
 			}
 			if kf.MsgRe != "" {
-				if ok, _ := regexp.MatchString(kf.MsgRe, cv.v.msg); !ok {
+				if ok, _ := regexp.MatchString(kf.MsgRe, cv.v.msg+" | "+cv.v.detail); !ok {
 					continue
 				}
 			}
@@ -391,7 +391,7 @@ func checkMain(args []string) int {
 		}
 		nviol++
 		fmt.Printf("VIOLATION property=%s replay=%s\n", spec.Property, cv.replay)
-		fmt.Printf("    run=%s entry=%s kind=%s what=%q paths=%d native=%s inputs=%s\n", cv.run, cv.v.entry, cv.v.kind, cv.v.msg, cv.count, cv.native, fmtInputs(cv.v.hvals))
+		fmt.Printf("    run=%s entry=%s kind=%s what=%q detail=%q paths=%d native=%s inputs=%s\n", cv.run, cv.v.entry, cv.v.kind, cv.v.msg, cv.v.detail, cv.count, cv.native, fmtInputs(cv.v.hvals))
 	}
 	for i := range known {
 		if usedKnown[i] {
@@ -464,6 +464,7 @@ type ReplayFile struct {
 	Bounds    map[string]int64 `json:"bounds"`
 	Kind      string           `json:"kind"`
 	Assertion string           `json:"assertion"`
+	Detail    string           `json:"detail,omitempty"`
 	Inputs    []NondetVal      `json:"inputs"`
 	Env       []FSPre          `json:"fs_pre,omitempty"`
 	Model     map[string]uint64 `json:"model"`
@@ -474,7 +475,7 @@ type ReplayFile struct {
 
 func writeReplay(spec *Spec, cv *confirmedViolation) string {
 	rf := ReplayFile{Property: spec.Property, Entry: cv.v.entry, Harness: spec.Harness, Bounds: cv.v.bounds, Kind: cv.v.kind,
-		Assertion: cv.v.msg, Inputs: cv.v.hvals, Env: cv.v.env, Model: cv.v.model, Native: cv.native, Run: cv.run}
+		Assertion: cv.v.msg, Detail: cv.v.detail, Inputs: cv.v.hvals, Env: cv.v.env, Model: cv.v.model, Native: cv.native, Run: cv.run}
 	for _, d := range cv.v.decisions {
 		b := uint64(0)
 		if d.b {
@@ -554,7 +555,7 @@ func writeEvidence(spec *Spec, tier string, seed int64, results []*RunResult, co
 		} else {
 			nviol++
 		}
-		findings = append(findings, map[string]interface{}{"status": st, "entry": cv.v.entry, "kind": cv.v.kind, "what": cv.v.msg, "violating_paths": cv.count, "native_replay": cv.native, "replay": cv.replay})
+		findings = append(findings, map[string]interface{}{"status": st, "entry": cv.v.entry, "kind": cv.v.kind, "what": cv.v.msg, "detail": cv.v.detail, "violating_paths": cv.count, "native_replay": cv.native, "replay": cv.replay})
 	}
 	if states == 0 {
 		states = 1 // schema minimum; undecided runs are reported in 'undecided'
